@@ -129,7 +129,14 @@ def run_c01(ctx) -> Corr:
                 "wakes, replies, reboot flags, unknown version / nodes; checked per step: the message Gateway.listen yields "
                 "has exactly the field values its transport line spells and re-encodes to it, Gateway.send writes exactly "
                 "the message's encoding, every written text is a one-line encoding; non-trivial there = a yielded line "
-                "whose handler also wrote something, or a send that was held")
+                "whose handler also wrote something, or a send that was held. Plus concurrent sends (concurrent:* in the "
+                "distribution; harness/props/codec_concurrent.py): several tasks send through one Gateway (every command, buffered "
+                "and unbuffered, 5 versions, a plain Transport and the library's MQTTTransport) while Transport.write really "
+                "suspends at a gate, a listening task writes replies and releases held commands meanwhile, under random and "
+                "bounded-exhaustive schedules of task starts, arriving lines and write completions / failures; checked: every "
+                "argument of Transport.write is exactly one encoded message that decodes back, every message whose send came to "
+                "its end was handed over in a write of its own during the call, nothing is written twice, a task's messages "
+                "keep their order; non-trivial there = a send made while another write was suspended")
     corr.notes.append("Gateway histories (codecstates.run): judged by the oracle and also expressed as operations of the Lean "
                       "gateway model (Driver.lean gnew/gnode/gchild/gval/grecv/gsend), compared on the codec view only: the six "
                       "yielded field values (or invalid / raised) per received line, outcome class and written texts per send "
@@ -196,8 +203,15 @@ def run_c01(ctx) -> Corr:
         corr.case((version, n, c, cmd, ack, t, p), nontriv, {**case, "line": line} if nontriv else None)
         corr.count(f"payload:{label}")
         corr.count(f"cmd:{cmd}")
+    # Gateway.send vs Transport.write when several tasks send through one gateway while a write is suspended (the model's
+    # part of it - encode / decode of what was sent / written - travels with the batch below)
+    from . import codec_concurrent
+    t0 = time.time()
+    cc_ops, cc_finish = codec_concurrent.run(corr, ctx)
+    corr.notes.append(f"concurrent-sends part took {time.time() - t0:.1f}s (implementation and oracle)")
     if ctx.model_ok:
-        outs = lib.run_model(ops)
+        outs = lib.run_model(ops + cc_ops)
+        cc_finish(outs[len(ops):])
         j = 0
         for (version, (n, c, cmd, ack, t), p, label), im in zip(cases, impl):
             if im is None:
